@@ -40,6 +40,12 @@ def jobs():
     for c in compile_configs(t):
         js.append(cbmc.Job('c06.compile.' + ('_'.join(x.replace('CFG_', '').replace('=', '') for x in c) or 'default'), [HC] + TUS,
                            'h_compile_classify', defs=c, unwind=130, timeout=900 if t == 'quick' else 2400, mem_gb=12, funcs=F_COMPILE))
+    # fallback after a *re*compile: the first compile may succeed natively, a later one fail (back end error, no executable
+    # memory): the entry point must fall back as well and nothing may still point into the released code
+    for ops, c in ((('1,4,5', ['CFG_FAIL=1']), ('1,4,5', ['CFG_FAIL=1', 'CFG_BK=1'])) if t == 'quick' else
+                   (('1,4,5', ['CFG_FAIL=1']), ('1,4,5', ['CFG_FAIL=1', 'CFG_BK=1']), ('1,4,5', ['CFG_CHUNK=2']), ('1,4,4,5', ['CFG_FAIL=1']), ('1,2,4,6', ['CFG_FAIL=1']))):
+        js.append(cbmc.Job('c06.recompile.ops%s.%s' % (ops.replace(',', ''), '_'.join(x.replace('CFG_', '').replace('=', '') for x in c)), [HC] + TUS, 'h_lifecycle',
+                           defs=['OPS=' + ops] + c, unwind=130, timeout=900 if t == 'quick' else 2400, mem_gb=12, funcs=F_COMPILE))
     return js
 
 
